@@ -12,7 +12,7 @@ import gen_kern as G
 ID = "C09"
 LEAN_MODULES = ["CatiiProps.C09"]
 RULE = ("same exhaustive spaces as C08 (every empty/non-empty combination and exhaustion order up to 6/8 elements; the k-way union over all lists of <=3 subsets of [0, 3, 2^32-1]) plus "
-        "random pairs over eleven overlap patterns (incl. lengths 1-4 against 65-5000; contiguous, embedded, strided and backwards views of buffers whose other words belong to neither operand, a stray word in the result being a read outside the inputs), unsorted and duplicate-carrying random arrays; each case runs the bounds-checked twin (IndexError per "
+        "operands sharing 65537 .. 70000 row ids (twin only); random pairs over eleven overlap patterns (incl. lengths 1-4 against 65-5000; contiguous, embedded, strided and backwards views of buffers whose other words belong to neither operand, a stray word in the result being a read outside the inputs), unsorted and duplicate-carrying random arrays; each case runs the bounds-checked twin (IndexError per "
         "out-of-range source-level access) and the model (Err per checked access); non-trivial = at least one operand "
         "non-empty; distinct by input")
 ASSUMPTIONS = ["Cython lowers each source-level index expression to one access of that element; gcc preserves it",
@@ -142,6 +142,27 @@ def run(ctx):
         reqs.append({"op": "kern", "fn": "union_many", "arrays": arrays})     # the model's checked index loop
         pend.append((case, got))
     ctx.exhaustive.append("k-way union on the twin: all lists of 0..3 subsets of [0, 3, 2^32-1]")
+    # operands sharing more than 2^16 row ids (any output buffer that is grown or sized in 2^16 steps is crossed):
+    # bounds-checked twin only - the model is not asked to walk 10^5 elements
+    for na, nb, step_b in ((70000, 70000, 1), (100000, 140000, 2), (65537, 65537, 1)):
+        a = np.arange(0, na, dtype=np.uint32)
+        b = np.arange(0, nb * step_b, step_b, dtype=np.uint32)[:nb]
+        for fn in FN2:
+            case = {"fn": fn, "big": [na, nb, step_b]}
+            ctx.case(case, nontrivial=True)
+            ctx.hit("big_operands")
+            try:
+                r = np.asarray(getattr(ck, FN2[fn])(a, b))
+                want = {"inter": np.intersect1d, "union": np.union1d, "diff": np.setdiff1d}[fn](a, b)
+                if not np.array_equal(r, want):
+                    ctx.oracle_fail("%s on operands of %d and %d row ids (bounds-checked twin) returned a wrong result (first "
+                                    "difference at position %s)" % (FN2[fn], na, nb, int(np.argmax(r[:len(want)] != want[:len(r)])) if len(r) == len(want) else "length"),
+                                    case, cls="C09-many-wrong")
+            except IndexError as e:
+                ctx.oracle_fail("%s on operands of %d and %d row ids: bounds-checked twin raised IndexError (%s) — the shipped kernel "
+                                "reads/writes outside its buffers here" % (FN2[fn], na, nb, e), case, cls="C09-oob")
+            except Exception as e:
+                ctx.oracle_fail("%s raised %s" % (FN2[fn], type(e).__name__), case, cls="C09-raises")
     # unsorted / duplicate inputs: outside C08's precondition but inside C09's theorem
     for _ in range(ctx.n(300)):
         a = [ctx.rng.randrange(0, 12) for _ in range(ctx.rng.randrange(0, 9))]
@@ -224,6 +245,15 @@ def asan(ctx, subs):
 def replay(ctx, rep):
     ck = core.load_kernels("checked")
     c = rep["case"]
+    if "big" in c:
+        na, nb, step_b = c["big"]
+        a = np.arange(0, na, dtype=np.uint32)
+        b = np.arange(0, nb * step_b, step_b, dtype=np.uint32)[:nb]
+        try:
+            r = np.asarray(getattr(ck, FN2[c["fn"]])(a, b))
+        except Exception:
+            return False
+        return np.array_equal(r, {"inter": np.intersect1d, "union": np.union1d, "diff": np.setdiff1d}[c["fn"]](a, b))
     if c.get("fn") == "union_many":
         try:
             r = ck.set_union_merge_many([u32(a) for a in c["arrays"]])
